@@ -319,7 +319,7 @@ def histories(ctx, rep, spec):
 def specs_for(ctx, n):
     out = []
     for i in range(n):
-        nf = [1, 2, 3, 4, 5, 3][i % 6]
+        nf = [1, 2, 3, 4, 5, 3, 2, 12][i % 8]
         thin = i % 4 == 3           # one-cell blocks: boxes one cell thick in some direction
         nd = [3, 2, 3][i % 3]
         out.append(plotgen.random_spec(ctx.rng, ndims=nd, nf=nf, data="bits", B=1 if thin else 2,
